@@ -213,6 +213,9 @@ class Externals(object):
                 raise Unsupported("OrderedDict(args)", node)
             m = OrdMap.empty(interp.ctx)
             return m
+        if cls.name == "decimal.Decimal":
+            from .pynum import decimal_of
+            return decimal_of(interp, args[0], node)
         if cls.name == "octoprint.settings.settings":
             gs = getattr(interp.ctx, "global_settings", None)
             if gs is None:
